@@ -230,7 +230,7 @@ func (p *parser) expr() Expr {
 		if err := p.expectOp(":="); err != nil {
 			p.fail("%v", err)
 		}
-		v := p.expr()
+		v := p.add()
 		if !p.isIdent("in") {
 			p.fail("let: expected 'in'")
 		}
@@ -556,6 +556,14 @@ type Contract struct {
 	PureParams  []string
 	Denotes     Expr // closures: the spec-level function value this closure equals
 	DenotesText string
+	Anchored    []AnchoredAssert
+}
+
+// AnchoredAssert: an intermediate assertion proved (then assumed) before/after a call of Callee.
+type AnchoredAssert struct {
+	Before bool
+	Callee string
+	C      Clause
 }
 
 type PredDef struct {
@@ -565,6 +573,7 @@ type PredDef struct {
 	Text   string
 	Pkg    string
 	IsFun  bool
+	Opaque bool
 	ResTy  string
 	File   string
 	Line   int
@@ -616,7 +625,7 @@ type SpecFile struct {
 var directiveWords = map[string]bool{
 	"func": true, "requires": true, "ensures": true, "modifies": true, "loop": true, "pred": true, "fun": true,
 	"ufun": true, "axiom": true, "lemma": true, "pure": true, "check": true, "immutable": true, "trusted": true,
-	"inline": true, "package": true, "allocates": true, "pureparam": true, "denotes": true, "guarded_by": true, "havocs": true, "opaque": true, "reads": true, "call": true,
+	"inline": true, "package": true, "allocates": true, "pureparam": true, "denotes": true, "assert": true, "guarded_by": true, "havocs": true, "opaque": true, "reads": true, "call": true,
 }
 
 // parseSpecText parses the joined text of //@ lines. lines carries (text,lineNo).
@@ -732,6 +741,18 @@ func parseSpecLines(file string, pkg string, lines []specLine) (*SpecFile, error
 			}
 			cur.Trusted = true
 		case "opaque":
+			if strings.HasPrefix(d.text, "pred ") {
+				sub, err := parseSpecLines(file, pkg, []specLine{{text: d.text, line: d.line}})
+				if err != nil {
+					return nil, err
+				}
+				for _, p := range sub.Preds {
+					p.Opaque = true
+					sf.Preds = append(sf.Preds, p)
+				}
+				cur = nil
+				continue
+			}
 			if cur == nil {
 				return nil, errf("opaque outside func")
 			}
@@ -741,6 +762,26 @@ func parseSpecLines(file string, pkg string, lines []specLine) (*SpecFile, error
 				return nil, errf("inline outside func")
 			}
 			cur.Inline = true
+		case "assert":
+			// assert before|after <callee>: <expr>
+			if cur == nil {
+				return nil, errf("assert outside func")
+			}
+			f := strings.Fields(d.text)
+			if len(f) < 3 || (f[0] != "before" && f[0] != "after") {
+				return nil, errf("assert: expected 'before|after <callee>: expr'")
+			}
+			ci := strings.Index(d.text, ":")
+			if ci < 0 {
+				return nil, errf("assert: expected ':'")
+			}
+			callee := strings.TrimSpace(d.text[len(f[0]):ci])
+			name, text := splitLabel(strings.TrimSpace(d.text[ci+1:]))
+			e, err := ParseExpr(text)
+			if err != nil {
+				return nil, errf("%v", err)
+			}
+			cur.Anchored = append(cur.Anchored, AnchoredAssert{Before: f[0] == "before", Callee: callee, C: Clause{Text: text, E: e, Name: name, File: file, Line: d.line}})
 		case "denotes":
 			if cur == nil {
 				return nil, errf("denotes outside func")
